@@ -2,6 +2,7 @@
 use crate::engine::Prop;
 
 pub mod c02_c13;
+pub mod consist_lab;
 pub mod pt_props;
 pub mod ptlab;
 
@@ -12,6 +13,7 @@ pub fn get(id: &str) -> Option<Box<dyn Prop>> {
         "C01" => Some(Box::new(pt_props::PtProp { which: "C01" })),
         "C08" => Some(Box::new(pt_props::PtProp { which: "C08" })),
         "C09" => Some(Box::new(pt_props::PtProp { which: "C09" })),
+        "C10" => Some(Box::new(pt_props::C10)),
         _ => None,
     }
 }
